@@ -14,10 +14,11 @@ The recorder only drives the public API and projects state (proj.py); it decides
 from __future__ import annotations
 
 import copy
+import os
 import sys
 from datetime import timedelta
 
-sys.path.insert(0, "/repo")
+sys.path.insert(0, os.environ.get("HEXITAL_REPO", "/repo"))  # /repo unless a run snapshot is given
 
 from catalog import ref  # noqa: E402
 from proj import candles as proj_candles  # noqa: E402
